@@ -73,6 +73,7 @@ MEMBERS = {
     "super0": (["def m(self, v):", "    return ('K.m', super().m(v))"], ["K().m(a)", "Sub().m(b)"]),
     "super2": (["def m(self, v):", "    return ('K.m2', super(K, self).m(v))"], ["K().m(a)", "Sub().m(b)"]),
     "super_cm": (["@classmethod", "def cm(cls, v):", "    return ('K.cm', super().cm(v))"], ["K.cm(a)", "Sub.cm(b)"]),
+    "super_in_while_condition": (["def m(self, v):", "    n = 0", "    while super().m(v) and n < 2:", "        n += 1", "    for i in range(1):", "        while n < 4 and super().m(i):", "            n += 1", "    return ('K.wc', n)"], ["K().m(a)", "Sub().m(b)"]),
     "init_subclass": (["def __init_subclass__(cls, flavour=None, **kw):", "    super().__init_subclass__(**kw)", "    cls.flavour = flavour"], ["mksub(K, 'S2', flavour=a).flavour"]),
     "super_in_nested_function": (["def m(self, v):", "    def inner():", "        return super(K, self).m(v)", "    def inner2(s):", "        return super().m(v)", "    return ('K.nested', inner(), inner2(self), (lambda: __class__.__name__)())"], ["K().m(a)", "Sub().m(b)"]),
     "init_subclass_decorated": (["@hookdeco", "def __init_subclass__(cls, **kw):", "    super().__init_subclass__(**kw)", "    cls.hooked = sorted(kw)"], ["Sub.hooked", "mksub(K, 'S3').hooked"]),
@@ -103,7 +104,7 @@ MEMBERS = {
     # placed before the class statement in the same scope)
     "reads_earlier_binding": (["prev = K.ca0 + a", "def old(self):", "    return self.prev"], ["K.prev", "K().old()", "hasattr(K, 'ca0')"], ["class K:", "    ca0 = 7"]),
 }
-NEED_BASE_M = {"super0", "super2", "super_cm", "super_in_nested_function"}
+NEED_BASE_M = {"super0", "super2", "super_cm", "super_in_nested_function", "super_in_while_condition"}
 DEFAULT_HEADER = ("one", "none", "none", "0", "module")
 
 
@@ -189,7 +190,7 @@ def fix_members(header, ms):
     for m in ms:
         if m in NEED_BASE_M and header[0] in ("none", "is"):
             continue  # needs a base defining m / cm
-        if m in ("super0", "super2", "super_in_nested_function"):
+        if m in ("super0", "super2", "super_in_nested_function", "super_in_while_condition"):
             if have_m:
                 continue
             have_m = True
